@@ -39,6 +39,8 @@ TEXT = '''MAP
       STYLE
         PATTERN 1 2 END
         OFFSET [a] 2
+        WIDTH 1
+        WIDTH 7
       END
     END
   END
@@ -52,7 +54,7 @@ TOKS = [("map", "MAP", 0), ("name", "NAME", 0), ("namev", '"x"', 0), ("extent", 
         ("cfg1", "CONFIG", 0), ("cfg1k", '"A"', 0), ("cfg1v", '"b"', 0), ("cfg2", "CONFIG", 1), ("proj", "PROJECTION", 0), ("projv", '"init=epsg:4326"', 0),
         ("web", "WEB", 0), ("md", "METADATA", 0), ("mdk", '"k"', 0), ("mdv", '"v"', 0), ("layer", "LAYER", 0), ("pr1", "PROCESSING", 0), ("pr1v", '"a=1"', 0),
         ("pr2", "PROCESSING", 1), ("pr2v", '"b=2"', 0), ("feature", "FEATURE", 0), ("pt1", "POINTS", 0), ("pt2", "POINTS", 1), ("cls", "CLASS", 0), ("style", "STYLE", 0),
-        ("pattern", "PATTERN", 0), ("offset", "OFFSET", 0), ("offa", "a", 0), ("cls2", "CLASS", 1), ("name2", "NAME", 1)]
+        ("pattern", "PATTERN", 0), ("offset", "OFFSET", 0), ("offa", "a", 0), ("w1", "WIDTH", 0), ("w2", "WIDTH", 1), ("w2v", "7", 0), ("cls2", "CLASS", 1), ("name2", "NAME", 1)]
 
 BODY = '''
 pos = {POS}
@@ -78,6 +80,8 @@ cp = d["layers"][0]["classes"][0]
 ok = ok and at(cp["__position__"], l_cls, c_cls)
 sp = cp["styles"][0]["__position__"]
 ok = ok and at(sp, l_style, c_style) and at(sp["pattern"], l_pattern, c_pattern) and at(sp["offset"], l_offset, c_offset) and sp["offset"]["values"][0] == (l_offa, c_offa)
+# a keyword given twice keeps its last value; the recorded position is that occurrence's
+ok = ok and cp["styles"][0]["width"] == 7 and at(sp["width"], l_w2, c_w2) and sp["width"]["values"] == [(l_w2v, c_w2v)]
 p2 = ds[1]["__position__"]
 ok = ok and at(p2, l_cls2, c_cls2) and at(p2["name"], l_name2, c_name2)
 # nothing but positions differs from a plain load
